@@ -9,7 +9,8 @@ extern void* g_unmapped_ptr;
 void JitCompilerX86_ctor(struct JitCompilerX86* self)
 __CPROVER_requires(__CPROVER_rw_ok(self, sizeof(*self)))
 __CPROVER_assigns(__CPROVER_object_whole(self), RXV_VMEM_GHOST)
-__CPROVER_ensures(self->code != NULL && rxv_maps == __CPROVER_old(rxv_maps) + 1 && rxv_mapped_bytes == __CPROVER_old(rxv_mapped_bytes) + CodeSize);
+__CPROVER_ensures(self->code != NULL && rxv_maps == __CPROVER_old(rxv_maps) + 1 && rxv_mapped_bytes == __CPROVER_old(rxv_mapped_bytes) + CodeSize
+	&& rxv_unmaps == __CPROVER_old(rxv_unmaps) && rxv_unmapped_bytes == __CPROVER_old(rxv_unmapped_bytes));
 
 void JitCompilerX86_dtor(struct JitCompilerX86* self)
 __CPROVER_requires(__CPROVER_is_fresh(self, sizeof(*self)) && self->code != NULL)
